@@ -238,6 +238,13 @@ type hsSecrets struct {
 	Pad         []byte   // 16 bytes; the answer's padding is a prefix of it
 	Minimal     bool     // send dh_prime / g_a without leading zero bytes instead of as 256 bytes
 	ExtraFps    []uint64 // further fingerprints offered in front of the right one
+	LaterFps    []uint64 // further fingerprints offered after the right one
+}
+
+// offered: the fingerprints this server lists in resPQ — its key's own, those of other keys around it
+func (s *hsSecrets) offered() []uint64 {
+	fps := append(append([]uint64{}, s.ExtraFps...), hsFingerprint(&s.Key.PublicKey))
+	return append(fps, s.LaterFps...)
 }
 
 func (s *hsSecrets) pqBytes() []byte {
@@ -337,8 +344,7 @@ type hsHonestOut struct {
 func hsHonest(s *hsSecrets, nonce, newNonce []byte, gB *big.Int) hsHonestOut {
 	var o hsHonestOut
 	o.Fingerprint = hsFingerprint(&s.Key.PublicKey)
-	fps := append(append([]uint64{}, s.ExtraFps...), o.Fingerprint)
-	o.R[0] = hsResPQ(nonce, s.ServerNonce, s.pqBytes(), fps)
+	o.R[0] = hsResPQ(nonce, s.ServerNonce, s.pqBytes(), s.offered())
 	o.Answer = hsInnerData(nonce, s.ServerNonce, s.G, hsIntBytes(s.DhPrime, s.Minimal), hsIntBytes(s.gA(), s.Minimal), s.ServerTime)
 	o.EncAnswer = hsWrapAnswer(o.Answer, hsSha1(o.Answer), s.Pad, newNonce, s.ServerNonce)
 	o.R[1] = hsDHOk(nonce, s.ServerNonce, o.EncAnswer)
@@ -686,8 +692,7 @@ func (cv *hsConv) handle(body []byte) ([]byte, string) {
 			return nil, "req_pq malformed"
 		}
 		cv.stage = 1
-		fps := append(append([]uint64{}, s.ExtraFps...), hsFingerprint(&s.Key.PublicKey))
-		return hsResPQ(cv.nonce, s.ServerNonce, s.pqBytes(), fps), ""
+		return hsResPQ(cv.nonce, s.ServerNonce, s.pqBytes(), s.offered()), ""
 	case cv.stage == 1 && id == hsIDReqDH:
 		nonce, sn, p, q := rd.take(16), rd.take(16), rd.str(), rd.str()
 		fp := rd.u64()
